@@ -7,6 +7,8 @@ from mbt import framework  # noqa: E402
 
 REGISTRY = {
     'C01': ('checks.streams', 'c01'),
+    'C02': ('checks.servlets', 'c02'),
+    'C04': ('checks.servlets', 'c04'),
     'C05': ('checks.streams', 'c05'),
     'C06': ('checks.server', 'c06'),
     'C07': ('checks.server', 'c07'),
